@@ -323,7 +323,7 @@ def build_formulas(ctx, cnfgen, quick):
     add('iso', 'family', lambda: C.GraphIsomorphism(small_graph(C, rng, 4), small_graph(C, rng, 4)))
     for i in range(3 * s):
         k, n = rng.randint(1, 4), rng.randint(4, 12)
-        m = rng.randint(0, 25)
+        m = rng.randint(0, 8 if k == 1 else 25)
         seed = rng.randrange(1 << 30)
         add('randkcnf %d %d %d' % (k, n, m), 'family', lambda k=k, n=n, m=m, seed=seed: C.RandomKCNF(k, n, m, seed=seed))
     add('randkxor 3 7 4', 'family', lambda: C.RandomKXOR(3, 7, 4, seed=11))
@@ -784,7 +784,7 @@ def run_texts(ctx, cnfgen, quick):
     for t in fixed:
         items.append((t, 'fixed'))
         ctx.tally('mutation', 'fixed')
-    for _ in range(700 if quick else 9000):
+    for _ in range(700 if quick else 5000):
         lines, n, clauses = base_text(rng)
         mu, lines2 = mutate(rng, lines, n, clauses)
         t, eol = join_lines(rng, lines2)
@@ -795,7 +795,7 @@ def run_texts(ctx, cnfgen, quick):
         items.append((t, mu))
     compare_texts(ctx, CNF, 'texts-mutated', items)
     items = []
-    for _ in range(700 if quick else 9000):
+    for _ in range(700 if quick else 5000):
         items.append((random_text(rng), 'random'))
     compare_texts(ctx, CNF, 'texts-random', items)
 
@@ -928,7 +928,7 @@ def run_cli(ctx, cnfgen):
         p = tmp_path('cli.cnf')
         with open(p, 'w', newline='', encoding='utf-8') as f:
             f.write(t)
-        code = 'import sys; from cnfgen.clitools.cnfgen import main; main(["cnfgen","-q","dimacs",%r])' % p
+        code = 'import sys; sys.argv = ["cnfgen", "-q", "dimacs", %r]; from cnfgen.clitools.cnfgen import main; main()' % p
         r = subprocess.run([lib.PY, '-c', code], cwd=lib.REPO, env=env, stdout=subprocess.PIPE, stderr=subprocess.PIPE, timeout=120)
         out = r.stdout.decode('utf-8', 'replace')
         err = r.stderr.decode('utf-8', 'replace')
